@@ -613,3 +613,34 @@ Fixpoint which_steps (root : list handler) (steps : list step) (traces : list (l
       | t :: ts => prop_c01_which root m t :: which_steps root r ts
       end
   end.
+
+(* ---- how a child pipeline OBJECT came into being.  The scenario language can ask for a child that enters the real
+   tree as a COPY of an already built Pipeline object (copy constructor once the original is complete, the library's
+   by-value helper operator<<(Logger *, const Pipeline &) = PipelinePtr::create(pipeline), copy constructor of the
+   still empty original, copy assignment).  The property does not speak about construction: a tree of pipelines is
+   what it is however its pipelines were made, so the model FORGETS the tag - the scenario with tags is evaluated as
+   [forget_l] of it (the driver parses into [bhandler] and calls this very function). *)
+Inductive built := BFresh | BCopyCtor | BCopyHelper | BCopyEmpty | BCopyAssign.
+Inductive bhandler :=
+| BLeaf (oid : nat) (l : leaf)
+| BNull
+| BPipe (how : built) (scoped : bool) (hs : list bhandler).
+Fixpoint forget (b : bhandler) : handler :=
+  match b with
+  | BLeaf o l => HLeaf o l
+  | BNull => HNull
+  | BPipe _ sc hs => HPipe sc (map forget hs)
+  end.
+Definition forget_l (bs : list bhandler) : list handler := map forget bs.
+(* the same scenario with every child made the plain way *)
+Fixpoint refresh (b : bhandler) : bhandler :=
+  match b with
+  | BPipe _ sc hs => BPipe BFresh sc (map refresh hs)
+  | x => x
+  end.
+(* number of children (at any depth) that are copies *)
+Fixpoint copies (b : bhandler) : nat :=
+  match b with
+  | BPipe how _ hs => (match how with BFresh => 0 | _ => 1 end) + fold_right (fun x n => copies x + n) 0 hs
+  | _ => 0
+  end.
